@@ -119,12 +119,16 @@ RecViews(m, a) ==
     bid_level_counts |-> [i \in 1..nl |-> Series(r, LAMBDA x : x[5][i][2])],
     ask_level_vols   |-> [i \in 1..nl |-> Series(r, LAMBDA x : x[6][i][1])],
     ask_level_counts |-> [i \in 1..nl |-> Series(r, LAMBDA x : x[6][i][2])],
+    rec_prices  |-> <<Series(r, LAMBDA x : x[1]), Series(r, LAMBDA x : x[2])>>,
+    rec_volumes |-> <<Series(r, LAMBDA x : x[3]), Series(r, LAMBDA x : x[4])>>,
     trade_vols |-> m.tvols[a] ]
 
 InstrTuple(e) == <<e.k, e.a, e.id, e.p, e.v>>
 
 ProjEnv(m) ==
   [ books   |-> [a \in 1..Len(m.books) |-> Proj(m.books[a])],
+    env_orders |-> [a \in 1..Len(m.books) |-> Proj(m.books[a]).orders],   \* the environment's own order / trade getters
+    env_trades |-> [a \in 1..Len(m.books) |-> Proj(m.books[a]).trades],
     now     |-> m.books[1].now,
     pending |-> [k \in 1..Len(m.pending) |-> InstrTuple(m.pending[k])],
     l2      |-> m.l2,
